@@ -17,22 +17,23 @@ RULE = ("inputs = IPv4 addresses (blocks of 65536 consecutive addresses, each fo
 REG = dict(category="exploration",
            text="Runtime differential monitor: evutil_inet_ntop output for every buffer length (exact-size heap buffers under ASan, canaries in "
                 "the -O2 enumeration) must be NULL or a terminated text that the platform inet_pton maps back to the address; evutil_inet_pton "
-                "must agree with the platform inet_pton (after the leading-zero allowance) on >=2e5 (quick) / 6e6 (thorough) generated and "
+                "must agree with the platform inet_pton (after the leading-zero allowance) on >=1.5e5 (quick) / 6e6 (thorough) generated and "
                 "mutated strings; parse_sockaddr_port/format round trip. Thorough enumerates all 2^32 IPv4 addresses; IPv6 and strings are sampled.",
            note="trusts glibc inet_pton as the strict parser; IPv6 space and string space are sampled (structured + random), not enumerated",
            technique="differential runtime oracle (platform inet_pton) + ASan exact-size buffers over generated inputs")
 
 
-def steps(seed):
+def steps(seed, tier):
+    small = 6 if tier == "quick" else None   # few shards for small steps: process start-up dominates them
     off = (seed * 37) % 2048
     return [
-        dict(flavor="plain", harness="h_util", args=["--mode", "ntop4", "--n1", 2048, "--n2", off], cases=dict(quick=32), tiers=("quick",)),
+        dict(flavor="plain", harness="h_util", args=["--mode", "ntop4", "--n1", 2048, "--n2", off], cases=dict(quick=32), tiers=("quick",), shards=4),
         dict(flavor="plain", harness="h_util", args=["--mode", "ntop4"], cases=dict(thorough=65536), tiers=("thorough",), timeout=6000),
-        dict(flavor="asan", env=ASAN_ENV, harness="h_util", args=["--mode", "ntop4s"], cases=dict(quick=150, thorough=2000), seed_off=1),
-        dict(flavor="asan", env=ASAN_ENV, harness="h_util", args=["--mode", "ntop6"], cases=dict(quick=600, thorough=15000), seed_off=2),
-        dict(flavor="plain", harness="h_util", args=["--mode", "ntop6"], cases=dict(quick=2200, thorough=60000), seed_off=3),
-        dict(flavor="asan", env=ASAN_ENV, harness="h_util", args=["--mode", "pton"], cases=dict(quick=400, thorough=12000), seed_off=4),
-        dict(flavor="asan", env=ASAN_ENV, harness="h_util", args=["--mode", "sap"], cases=dict(quick=200, thorough=8000), seed_off=5),
+        dict(flavor="asan", env=ASAN_ENV, harness="h_util", args=["--mode", "ntop4s"], cases=dict(quick=150, thorough=2000), seed_off=1, shards=small),
+        dict(flavor="asan", env=ASAN_ENV, harness="h_util", args=["--mode", "ntop6"], cases=dict(quick=400, thorough=15000), seed_off=2),
+        dict(flavor="plain", harness="h_util", args=["--mode", "ntop6"], cases=dict(quick=1500, thorough=60000), seed_off=3),
+        dict(flavor="asan", env=ASAN_ENV, harness="h_util", args=["--mode", "pton"], cases=dict(quick=300, thorough=12000), seed_off=4),
+        dict(flavor="asan", env=ASAN_ENV, harness="h_util", args=["--mode", "sap"], cases=dict(quick=200, thorough=8000), seed_off=5, shards=small),
     ]
 
 
@@ -42,7 +43,7 @@ def run(tier, seed):
         res.extra["enumerated_subspace"] = ("IPv4 addresses enumerated in consecutive blocks: %d of 4294967296%s"
                                             % (n4, " (complete)" if n4 == 1 << 32 else ""))
         res.extra["ipv4_space_exhaustive"] = (n4 == 1 << 32)
-    return generic.run_spec("C40", tier, seed, steps(seed), RULE,
+    return generic.run_spec("C40", tier, seed, steps(seed, tier), RULE,
                             required=["ntop_text", "ntop_null", "ntop4_addresses", "ntop6_addresses", "ntop6_zero_run_masks",
                                       "pton4_both_accept", "pton6_both_accept", "pton4_both_reject", "pton6_both_reject",
                                       "pton_leading_zero_form_accepted", "pton_mutated_strings", "roundtrip4_ok", "roundtrip6_ok",
